@@ -89,8 +89,9 @@ def lift_constants(lam_text, prefix):
     return ast.unparse(new), defs
 
 
-def render(stages, layout, tag, lift=False):
-    "Client program text for building a chain from Python callables, in one of several layouts."
+def render(stages, layout, tag, lift=False, as_def=False):
+    """Client program text for building a chain from Python callables, in one of several layouts;
+    with as_def the callables are one-line function definitions instead of lambdas."""
     ind = ["    ", "        ", "  ", "    "][layout % LAYOUTS]
     out = []
     if lift:
@@ -104,6 +105,16 @@ def render(stages, layout, tag, lift=False):
     out.append(f"def build_{tag}(ds):\n")
     if layout % LAYOUTS == 3:
         out.append(f"{ind}# built by node\n\n")
+    if as_def:
+        named = []
+        for i, (op, lam) in enumerate(stages):
+            t = ast.parse(lam, mode="eval").body
+            out.append(f"{ind}def st_{i}({ast.unparse(t.args)}):\n")
+            if (layout + i) % 3 == 0:
+                out.append(f'{ind}    "stage {i}"\n')
+            out.append(f"{ind}    return {ast.unparse(t.body)}\n")
+            named.append((op, f"st_{i}"))
+        stages = named
     out.append(f"{ind}return (ds\n")
     for i, (op, lam) in enumerate(stages):
         cmt = "  # stage %d (lambda x: [x])" % i if layout % 2 else ""
@@ -254,7 +265,8 @@ def build(b, datasets, func_adl, simplify_chained_calls, fn_form):
             # a REAL source file that is edited and re-loaded during the life of the process:
             # the same path (and mostly the same line numbers) holds another query each time
             tag = "slot"
-            src = render(stages, b.get("layout", 0), tag, lift=bool(b.get("lift")))
+            src = render(stages, b.get("layout", 0), tag, lift=bool(b.get("lift")),
+                         as_def=bool(b.get("as_def")))
             fn = os.path.join(_scratch(), f"slot_{b['slot']}.py")
             with open(fn, "w") as f:
                 f.write(src)
@@ -262,7 +274,8 @@ def build(b, datasets, func_adl, simplify_chained_calls, fn_form):
             t = 1.6e9 + 100.0 * _SLOT_WRITES[0]
             os.utime(fn, (t, t))
         else:
-            src = render(stages, b.get("layout", 0), tag, lift=bool(b.get("lift")))
+            src = render(stages, b.get("layout", 0), tag, lift=bool(b.get("lift")),
+                         as_def=bool(b.get("as_def")))
             fn = f"<nodedisk>/build_{tag}.py"
             linecache.cache[fn] = (len(src), None, src.splitlines(True), fn)
         m = types.ModuleType(f"build_{tag}")
